@@ -334,6 +334,189 @@ func runRun(t *toks, out *bufio.Writer) {
 	cur = nil
 }
 
+// snapshot builds a second CPU from a copy of States, a copy of memory and the pending request only
+func snapshot(cpu *z80.CPU, w *world) (*z80.CPU, *world) {
+	w2 := &world{full: w.full, h: 7}
+	w2.mem = w.mem
+	w2.inputs = append([]uint8(nil), w.inputs...)
+	c2 := &z80.CPU{States: cpu.States, Memory: memory{w2}}
+	if cpu.IO != nil {
+		c2.IO = &ioDev{w: w2}
+	}
+	if cpu.RETIHandler != nil {
+		c2.RETIHandler = retiH{w2}
+	}
+	if cpu.RETNHandler != nil {
+		c2.RETNHandler = retnH{w2}
+	}
+	if cpu.Interrupt != nil {
+		c2.Interrupt = &z80.Interrupt{Type: cpu.Interrupt.Type, Data: append([]uint8(nil), cpu.Interrupt.Data...)}
+	}
+	return c2, w2
+}
+
+func sameCPU(a, b *z80.CPU, wa, wb *world) string {
+	if a.States != b.States {
+		return fmt.Sprintf("States %+v vs %+v", a.States, b.States)
+	}
+	if (a.Interrupt == nil) != (b.Interrupt == nil) {
+		return "pending request differs"
+	}
+	if wa.mem != wb.mem {
+		return "memory differs"
+	}
+	return ""
+}
+
+// twin: at EVERY instruction boundary a CPU rebuilt from States + memory + pending request must continue
+// exactly like the original (next Step: same state, same memory, same accesses)
+func runTwin(t *toks, out *bufio.Writer) {
+	pc := parseCase(t)
+	cpu, w := pc.cpu, pc.w
+	w.full = true
+	cur = nil
+	res := "same"
+	for k := 0; k < pc.nsteps && res == "same"; k++ {
+		for _, s := range pc.sched {
+			if s.at == k {
+				cpu.Interrupt = &z80.Interrupt{Type: z80.InterruptType(s.kind), Data: s.data}
+			}
+		}
+		c2, w2 := snapshot(cpu, w)
+		n0 := len(w.trace)
+		cpu.Step()
+		c2.Step()
+		if d := sameCPU(cpu, c2, w, w2); d != "" {
+			res = fmt.Sprintf("diverged_at_step_%d:%s", k, strings.ReplaceAll(d, " ", "_"))
+			break
+		}
+		ta, tb := w.trace[n0:], w2.trace
+		if len(ta) != len(tb) {
+			res = fmt.Sprintf("diverged_at_step_%d:access_count_%d_vs_%d", k, len(ta), len(tb))
+			break
+		}
+		for i := range ta {
+			if ta[i] != tb[i] {
+				res = fmt.Sprintf("diverged_at_step_%d:access_%d", k, i)
+			}
+		}
+	}
+	fmt.Fprintf(out, "%s %s\n", pc.id, res)
+}
+
+// par: n copies of one case stepped on their own goroutines; every copy must end like the sequential run
+func runPar(t *toks, out *bufio.Writer) {
+	pc := parseCase(t)
+	ncopies := t.n()
+	cur = nil
+	type fin struct {
+		st z80.States
+		h  int
+		n  int
+	}
+	runOne := func(cpu *z80.CPU, w *world) fin {
+		for k := 0; k < pc.nsteps; k++ {
+			for _, s := range pc.sched {
+				if s.at == k {
+					cpu.Interrupt = &z80.Interrupt{Type: z80.InterruptType(s.kind), Data: s.data}
+				}
+			}
+			cpu.Step()
+		}
+		return fin{cpu.States, w.h, w.n}
+	}
+	var cpus []*z80.CPU
+	var ws []*world
+	for i := 0; i < ncopies+1; i++ {
+		c, w := snapshot(pc.cpu, pc.w)
+		w.full = false
+		cpus, ws = append(cpus, c), append(ws, w)
+	}
+	ref := runOne(cpus[0], ws[0])
+	ch := make(chan fin, ncopies)
+	for i := 1; i <= ncopies; i++ {
+		go func(i int) { ch <- runOne(cpus[i], ws[i]) }(i)
+	}
+	res := "same"
+	for i := 0; i < ncopies; i++ {
+		if f := <-ch; f != ref {
+			res = "differs"
+		}
+	}
+	fmt.Fprintf(out, "%s %s\n", pc.id, res)
+}
+
+// inject: the property's own experiment.  Baseline: run the program to its HALT.  Then for EVERY Step boundary k
+// inject the request before Step k, run to the HALT again, and compare registers, flags, IFF state, HALT and memory
+// (outside the 64 bytes below the initial SP) with the baseline.  extras: kind ndata data... maxsteps
+func runInject(t *toks, out *bufio.Writer) {
+	pc := parseCase(t)
+	kind, nd := t.n(), t.n()
+	var data []uint8
+	for i := 0; i < nd; i++ {
+		data = append(data, uint8(t.n()))
+	}
+	maxsteps := t.n()
+	cur = nil
+	runTo := func(inj int) (*z80.CPU, *world, int, bool) {
+		c, w := snapshot(pc.cpu, pc.w)
+		w.full = false
+		steps, settled := 0, 0
+		for steps < maxsteps {
+			if steps == inj {
+				c.Interrupt = &z80.Interrupt{Type: z80.InterruptType(kind), Data: data}
+			}
+			c.Step()
+			steps++
+			// finished = parked on HALT with no request pending, for a few Steps in a row
+			if c.HALT && c.Interrupt == nil && w.mem[c.PC] == 0x76 {
+				settled++
+				if settled >= 3 && steps > inj+1 {
+					return c, w, steps, true
+				}
+			} else {
+				settled = 0
+			}
+			c.HALT = false
+		}
+		return c, w, steps, false
+	}
+	base, bw, n, ok := runTo(-1)
+	if !ok {
+		fmt.Fprintf(out, "%s baseline_did_not_halt\n", pc.id)
+		return
+	}
+	sp0 := pc.cpu.SP
+	same := func(c *z80.CPU, w *world) string {
+		a, b := base.States, c.States
+		a.IR.Lo, b.IR.Lo = 0, 0
+		if a != b {
+			return fmt.Sprintf("registers:%+v_vs_%+v", a, b)
+		}
+		for addr := 0; addr < 65536; addr++ {
+			if d := uint16(sp0 - uint16(addr)); d >= 1 && d <= 64 {
+				continue
+			}
+			if bw.mem[addr] != w.mem[addr] {
+				return fmt.Sprintf("memory_at_%04X:%02X_vs_%02X", addr, bw.mem[addr], w.mem[addr])
+			}
+		}
+		return ""
+	}
+	for k := 0; k <= n; k++ {
+		c, w, _, ok := runTo(k)
+		if !ok {
+			fmt.Fprintf(out, "%s fail k=%d did_not_halt\n", pc.id, k)
+			return
+		}
+		if d := same(c, w); d != "" {
+			fmt.Fprintf(out, "%s fail k=%d %s\n", pc.id, k, strings.ReplaceAll(d, " ", "_"))
+			return
+		}
+	}
+	fmt.Fprintf(out, "%s ok %d\n", pc.id, n+1)
+}
+
 func mkgpr(a, f int) z80.GPR {
 	return z80.GPR{AF: z80.Register{Hi: uint8(a), Lo: uint8(f)}, BC: z80.Register{Hi: 1, Lo: 2},
 		DE: z80.Register{Hi: 3, Lo: 4}, HL: z80.Register{Hi: 5, Lo: 6}}
@@ -361,6 +544,12 @@ func main() {
 			runStep(t, out)
 		case "run":
 			runRun(t, out)
+		case "twin":
+			runTwin(t, out)
+		case "inject":
+			runInject(t, out)
+		case "par":
+			runPar(t, out)
 		case "getflag":
 			id, a, fl, m := t.s(), t.n(), t.n(), t.n()
 			r := 0
